@@ -67,7 +67,7 @@ class SwapFloatLeg:
         self.leg_type = leg_type
         self.freq_type = freq_type
         self.payment_lag = payment_lag
-        self.principal = 0.0
+        self.principal = principal
         self.notional = notional
         self.notional_array = []
         self.spread = spread
